@@ -72,6 +72,7 @@ class Env:
         self.evclasses = {}
         self.opi = -1
         self.listen_order = []
+        self.shared = {}
         self.api_exc = []             # [api, waiter id or component, exception class, callback kind] of calls that raised
         self.silent = []              # waiters whose invocation the harness cannot observe (callback None, sink without _all_dependencies_met)
         pc = chk.pox_core
@@ -164,6 +165,8 @@ class Env:
             def h(self_, event, _attr=attr):
                 env.hits.append([k, _attr, env.probe_comp, type(event).__name__])
             d[attr] = h
+        for i, attr in enumerate(s.get("noncallable", [])):          # named like handlers but not callable: they name a component
+            d[attr] = (5, "text", None, [attr])[i % 4]               # (dir() is parsed) and are never bound (autoBindEvents)
         if s.get("met") is not None:
             def met(self_):
                 if env.fired(wid): env.in_callback(wid, s["met"])
@@ -235,6 +238,19 @@ class Env:
                 self.decls[-1][2] = [OPAQUE]
             def run_cb(*args, **kw):
                 if env.fired(wid): env.in_callback(wid, body)
+            if a.get("shared") is not None:
+                # the SAME callable declared again with equal components: the _waiters tuples are equal (==).  The callable cannot
+                # tell which entry it is called for; by symmetry the k-th call is counted for the k-th declaration of the group
+                grp = self.shared.setdefault(a["shared"], {"wids": [], "n": 0, "cb": None})
+                grp["wids"].append(wid)
+                if grp["cb"] is None:
+                    def shared_cb(*args, **kw):
+                        k = grp["n"]; grp["n"] += 1
+                        w = grp["wids"][k] if k < len(grp["wids"]) else -1
+                        if env.fired(w): env.in_callback(w, body)
+                    grp["cb"] = shared_cb
+                core.call_when_ready(grp["cb"], arg)
+                return
             if kind == "method":
                 class Holder(object):
                     def callback(self_, *args, **kw):
@@ -289,7 +305,7 @@ class Env:
             self.cb_ids[id(sink)] = wid
             self.listen_order.append([a["sink"], wid])
             if s.get("met") is None: self.silent.append(wid)
-            want = set(s["explicit"]) | set(c for c in map(handler_component, s["attrs"]) if c is not None)
+            want = set(s["explicit"]) | set(c for c in map(handler_component, s["attrs"] + s.get("noncallable", [])) if c is not None)
             self.decls.append([wid, "listen", sorted(want), self.opi, "sink"])
             ex, ct = s["explicit"], s.get("ctype", "list")
             if ct == "none": arg = None
@@ -422,7 +438,9 @@ class C08(Check):
                 "Pox.C08.lifecycle_down", "Pox.C08.goUp_delivers", "Pox.C08.failure_does_not_starve", "Pox.C08.rendezvous_never_raises",
                 "Pox.C08.fired_snapshot_is_registry", "Pox.C08.quit_goes_down", "Pox.C08.exec_reach", "Pox.C08.driver_reach", "Pox.C08.lifecycle_defect",
                 "Pox.C08.handler_names_component", "Pox.C08.handler_binds_event", "Pox.C08.listen_deps_exact", "Pox.C08.wiring_exact",
-                "Pox.C08.wiring_once", "Pox.C08.handler_wired"]
+                "Pox.C08.wiring_once", "Pox.C08.handler_wired",
+                "Pox.C08.try_waiters_returns_settled", "Pox.C08.quit_op_goes_down", "Pox.C08.tick_runs_pending_quit",
+                "Pox.C08.quit_while_starting_up_is_queued"]
     # name-based anchors, resolved by ast on the current source on every run (robust to line shifts)
     anchors = [("pox/core.py", "POXCore." + m) for m in
                ("quit", "_quit", "goUp", "_get_go_up_deferral", "_goUp_stage2", "_waiter_notify", "hasComponent", "registerNew",
@@ -434,7 +452,7 @@ class C08(Check):
                     "user code (callbacks, _all_dependencies_met, lifecycle handlers) is a parameter of the model: arbitrary, possibly non-terminating programs of acts register/call_when_ready/listen_to_dependencies/get-deferral/release/quit/raise",
                     "threads spawned by quit() are run one after the other by the explicit op `tick` (no interleaving inside _quit; races are C07's subject)",
                     "listener wiring (handler-name parsing, autoBindEvents prefix rule, attribute names) is modelled on character lists with its own theorems; the String<->List Char conversion in the driver is glue"]
-    assumptions = ["waiter callbacks are pairwise distinct objects (entries of _waiters are compared with ==; equal entries would be interchangeable)",
+    assumptions = ["the model identifies declarations by serial number, i.e. distinct _waiters tuples; the same callable declared again with equal components/args gives EQUAL tuples (interchangeable for `in`/`remove`): those histories are generated too and judged by the property oracle on the real code only (each declaration fires exactly once, when ready)",
                    "no listener of ComponentRegistered re-enters the core",
                    "goUp() is called at most once per history (boot.py:526 is the only caller; translate() re-checks this by ast on every run)",
                    "quit() is never called from the scheduler's own thread in the harness (that path spawns a thread exactly like quit() during start-up, which is exercised)",
@@ -602,6 +620,8 @@ class C08(Check):
         {"attrs": ["_handle_a_x_y", "_handle_a_EvA"], "explicit": ["a_x"], "ctype": "list", "met": 0},
         {"attrs": ["_handle_a_EvA", "_handle_b_EvB"], "explicit": [], "ctype": "none", "met": 0, "listen_args": "all"},
         {"attrs": ["_handle_a_EvA"], "explicit": [], "ctype": "none", "met": 0, "listen_args": "missing"},
+        {"attrs": ["_handle_a_EvA"], "noncallable": ["_handle_b_EvB", "_handle_a_EvB"], "explicit": [], "ctype": "none", "met": 0},
+        {"attrs": [], "noncallable": ["_handle_a_EvA", "_handle_p_x", "_handle_b_EvB", "_handle_a_b_EvA"], "explicit": [], "ctype": "none", "met": 1},
     ]
     SINK_EVENTS = {"a": ["EvA", "EvB", "x_y"], "b": ["EvB"], "a_b": ["EvA"], "a_x": ["y"]}     # p: a plain object
 
@@ -678,6 +698,20 @@ class C08(Check):
                     yield mkcase(regs[:pos] + [LISTEN(k)] + regs[pos:], bodies=[[], [REG("b")], [RAISE]], sinks=self.SINKS,
                                  events=self.SINK_EVENTS, falsy=f)
 
+    def _shared_callable_cases(self):
+        """the same callable declared two or three times with equal components (equal tuples in _waiters): each declaration fires
+        exactly once, when ready; also next to other waiters, nested, raising and registering"""
+        S = lambda deps, body, g=0, **kw: DECL(deps, body, shared=g, **kw)
+        for body in ([], [RAISE], [REG("y")], [REG("y"), RAISE]):
+            bodies = [[], body, [S(["y"], 1, g=1), REG("z")]]
+            yield mkcase([S(["x"], 1), S(["x"], 1), REG("x")], bodies=bodies)
+            yield mkcase([S(["x"], 1), DECL(["x"], 0), S(["x"], 1), S(["x"], 1), REG("x"), REG("y")], bodies=bodies)
+            yield mkcase([REG("x"), S(["x"], 1), S(["x"], 1)], bodies=bodies)
+            yield mkcase([S(["x", "y"], 1), DECL(["x"], 0), S(["x", "y"], 1), DECL(["y"], 0), REG("y"), REG("x")], bodies=bodies)
+            yield mkcase([S(["x"], 1), DECL(["x"], 2), S(["x"], 1), S(["y"], 1, g=1), DECL(["y"], 0), REG("x")], bodies=bodies)
+            yield mkcase([S(["y"], 1, g=1), DECL(["x"], 2), DECL(["y"], 0), S(["y"], 1, g=1), REG("x")], bodies=bodies)
+            yield mkcase([DECL(["x"], 2), S(["z"], 1), DECL(["z"], 0), S(["z"], 1), REG("x")], bodies=[[], body, [S(["z"], 1), REG("z")]])
+
     def corpus(self):
         cases = []
         for nr in range(4):
@@ -691,6 +725,7 @@ class C08(Check):
         cases += list(self._callback_kind_cases())
         cases += list(self._d31_cases())
         cases += list(self._falsy_cases())
+        cases += list(self._shared_callable_cases())
         return cases
 
     def _random_case(self, rng, big):
@@ -709,7 +744,10 @@ class C08(Check):
                 c = rng.choice(names); at.append("_handle_%s_%s" % (c, rng.choice(["EvA", "EvB", "Nope"])))
             ex = rng.sample(names, rng.randint(0, min(2, len(names))))
             ct = rng.choice(["list", "set", "tuple"] + (["none"] if not ex else []) + (["str"] if len(ex) == 1 else [])) if ex else rng.choice(["none", "set", "list"])
-            sinks.append({"attrs": sorted(set(at)), "explicit": ex, "ctype": ct, "met": None, "set_attrs": rng.random() < 0.8,
+            nc = []
+            if rng.random() < 0.25:
+                nc = sorted(set("_handle_%s_%s" % (rng.choice(names), rng.choice(["EvA", "EvB", "Nope"])) for _ in range(rng.randint(1, 2))) - set(at))
+            sinks.append({"attrs": sorted(set(at)), "noncallable": nc, "explicit": ex, "ctype": ct, "met": None, "set_attrs": rng.random() < 0.8,
                           "short_attrs": rng.random() < 0.2})
             k = len(sinks) - 1
             if rng.random() < 0.7:
@@ -749,6 +787,10 @@ class C08(Check):
             return QUIT
         ops = [REG(n, rng.choice(["register", "register", "registerNew", "register1", "registerNew"])) for n in names if rng.random() < 0.9]
         ops += [decl_act() for _ in range(nw)]
+        if rng.random() < 0.08:                  # the same callable declared two or three times with equal components
+            d = deps() or [names[0]]
+            bodies.append(rng.choice([[], [RAISE], [REG(rng.choice(names))], [REG(rng.choice(names)), RAISE]]))
+            for _ in range(rng.randint(2, 3)): ops.append(DECL(d, len(bodies) - 1, shared=0))
         for _ in range(rng.randint(0, 2)): ops.append(LISTEN(new_sink()))
         for _ in range(rng.choice([0, 0, 1, 2])): ops.append(GET)
         for _ in range(rng.choice([0, 0, 1, 2, 3])): ops.append(REL(rng.randint(0, 3)))
@@ -796,6 +838,8 @@ class C08(Check):
             return Env(self, case).run()
 
     def model_request(self, case):
+        if any(a.get("shared") is not None for a in all_acts(case)):
+            return None        # equal _waiters tuples: the model identifies declarations by serial number; these cases are judged by the oracle
         nb = len(case["bodies"])              # body nb: the empty body of `callback=None` waiters; nb+1: a C function that raises
         def act(a):
             r = {k: v for k, v in a.items() if k in ("a", "n", "deps", "body", "sink", "k")}
@@ -808,7 +852,7 @@ class C08(Check):
                 "bodies": [[act(a) for a in b] for b in case["bodies"]] + [[], [{"a": "raise"}]],
                 "onGoingUp": [act(a) for a in case["onGoingUp"]], "onUp": [act(a) for a in case["onUp"]],
                 "onGoingDown": [act(a) for a in case["onGoingDown"]], "onDown": [act(a) for a in case["onDown"]],
-                "sinks": [{"attrs": s["attrs"], "explicit": s["explicit"], "met": s.get("met"),
+                "sinks": [{"attrs": s["attrs"], "noncallable": s.get("noncallable", []), "explicit": s["explicit"], "met": s.get("met"),
                            "set_attrs": bool(s.get("set_attrs", True)), "short_attrs": bool(s.get("short_attrs", False))} for s in case["sinks"]],
                 "events": [[c, evs] for c, evs in sorted(case["events"].items())],
                 "ops": [act(a) for a in case["ops"]]}
